@@ -172,6 +172,21 @@ struct TopoMachine : Machine {
     if (sk < 7 || corpus.empty()) p.seth("src", "synthetic " + gen_synthetic(srcg));
     else p.seth("src", std::string(sk == 7 ? "xmlbuf " : "xml ") + corpus[srcg.below(corpus.size())]);
     if (dgx) p.seth("src", srcg.chance(1, 2) ? "xml nvidiaDGX2.xml" : "xml power8gpudistances.xml");
+    // C01 only (own sub-stream): one synthetic source in eight numbers its PUs with an explicit index list - a seeded permutation, in a third of
+    // the cases with one index given twice (the description must then be refused or the list ignored, never loaded as two PUs with one os_index)
+    if (prop == "C01" && p.h("src").rfind("synthetic ", 0) == 0) { Rng ig = root.sub(9); if (ig.chance(1, 8)) {
+        std::string d = p.h("src").substr(10); unsigned long total = 1; bool ok = true; size_t pos = 0;
+        while (pos < d.size()) { size_t e = d.find(' ', pos); if (e == std::string::npos) e = d.size(); std::string tok = d.substr(pos, e - pos); pos = e + 1;
+          if (tok.empty() || tok[0] == '[') { if (!tok.empty() && tok.find(']') == std::string::npos) { size_t c = d.find(']', pos); if (c == std::string::npos) { ok = false; break; } pos = c + 1; if (pos < d.size() && d[pos] == ' ') pos++; } continue; }
+          size_t col = tok.find(':'); if (col == std::string::npos) { ok = false; break; } total *= strtoul(tok.c_str() + col + 1, nullptr, 10); }
+        if (ok && total >= 2 && total <= 64 && d.size() > 3 && d.compare(d.rfind(' ') == std::string::npos ? 0 : d.rfind(' ') + 1, 3, "pu:") == 0) {
+          std::vector<unsigned> perm(total); for (unsigned long i = 0; i < total; i++) perm[i] = (unsigned)i; for (unsigned long i = total - 1; i > 0; i--) std::swap(perm[i], perm[ig.below(i + 1)]);
+          if (ig.chance(1, 3)) perm[ig.below(total)] = perm[ig.below(total)];
+          if (ig.chance(1, 4)) for (auto &x : perm) x = x * 3 + 5;   // sparse numbering
+          std::string l; for (unsigned long i = 0; i < total; i++) l += (i ? "," : "") + std::to_string(perm[i]);
+          p.seth("src", "synthetic " + d + "(indexes=" + l + ")"); } }
+      // ... and one in ten is an UNTYPED description (numbers only, 2-9 levels): the back-end then assigns the level types itself
+      else if (ig.chance(1, 10)) { int nl = (int)ig.range(2, 9); std::string d; unsigned long tot = 1; for (int i = 0; i < nl; i++) { unsigned long c = 1 + ig.below(i == nl - 1 ? 3 : 2); if (tot * c > 128) c = 1; tot *= c; d += (i ? " " : "") + std::to_string(c); } p.seth("src", "synthetic " + d); } }
     // a bundled Linux/x86 snapshot (intact) as the source of an ordinary history: native discovery builds states (wide PCI domains, cgroup-restricted
     // sets, offline CPUs, memory-side caches, heterogeneous memory) that no synthetic string or corpus XML holds. Own sub-stream: the other draws are unchanged
     Rng sng = root.sub(4); bool snapsrc = false, snapio = false;
